@@ -276,6 +276,18 @@ def rule_discriminants(ctx):
     need(ctx, "disc:const-name", ret_i is not None and 'format_ident!("__DISCRIMINANT_{}",ident)' in rs[ret_i].replace(" ", ""), w, "the constant's name is no longer `__DISCRIMINANT_<variant identifier as written>`: a case-folding or otherwise non-injective name makes variants differing only in case collide (E0428)")
     tt = texts(fn)
     need(ctx, "disc:const-expr", "(#last_discriminant)+#inc" in tt, w, "constant expression is no longer `<last explicit> + <offset>`", {"templates": tt})
+    # .. for every enum: no other expression is chosen for some class of enums (`Enum::V as repr` needs the enum's generic
+    # arguments, which a const item cannot name)
+    from . import reject as RJ
+    from .. import guardf as GF
+
+    for mac_, ps_ in A.find(fn.block, ("Expr::Macro", "Stmt::Macro")):
+        if A.path_last(mac_["mac"]["path"]) == "quote" and A.TTxt(T.ir_text(T.to_ir(mac_["mac"]["tokens"])).replace(" ", "")).same("(#last_discriminant)+#inc"):
+            fm_ = RJ.site_formula(fn, mac_, ps_)
+            at_, pl_ = set(), {}
+            GF._collect(fm_, at_, pl_)
+            # (the only condition in front of it is "a `#[try_from(repr)]` attribute is present")
+            need(ctx, "disc:const-expr:always", not at_ and set(pl_) <= {"self.attr"}, w, f"the constant is `<last explicit> + <offset>` only under `{GF.canon_text(fm_)[:120]}`; for the other enums another expression is generated")
     impl = tt[-1] if tt else ""
     need(ctx, "disc:typed-consts", "#(const#consts:#repr_ty=#discriminants;)*" in impl, w, "constants are no longer typed as the repr integer")
     need(ctx, "disc:match", "matchval{#(#consts=>derive_more::core::result::Result::Ok(#ident::#variants),)*_=>derive_more::core::result::Result::Err(derive_more::TryFromReprError::new(val)),}" in impl, w, "the match no longer maps exactly the constants to their variants and everything else to `Err(TryFromReprError::new(val))`")
@@ -677,3 +689,147 @@ def rule_delegation(ctx):
             "otherwise a field type with its own `AsRef<Self>` returns that impl's result instead of the field",
             {},
         )
+
+
+def _eval_ref_types(fn, env):
+    """evaluate `FullMetaInfo::ref_types` for one assignment of the three flags (env: 'self.owned' -> bool ..):
+    the list of `RefType` variants it returns, or None when the body is outside the two readable forms"""
+    st = fn.block["stmts"]
+
+    def flag(e):
+        e = A.peel(e)
+        while A.kind(e) == "Expr::Unary" and A.kind(e["op"]) == "UnOp::Deref":
+            e = A.peel(e["expr"])
+        r = A.render(e)
+        return env.get(r)
+
+    # form A: `let mut v = vec![]; if self.f { v.push(R) } ..; v`
+    if len(st) >= 2 and A.kind(st[0]) == "Stmt::Local" and A.kind(st[-1]) == "Stmt::Expr":
+        ids = A.pat_idents(st[0]["pat"])
+        if len(ids) == 1 and A.render(A.peel(st[-1]["0"])) == ids[0]:
+            out = []
+            for s_ in st[1:-1]:
+                e = s_.get("0") if A.kind(s_) == "Stmt::Expr" else None
+                if e is None or A.kind(e) != "Expr::If" or e.get("else_branch"):
+                    return None
+                c = flag(e["cond"])
+                body = e["then_branch"]["stmts"]
+                if c is None or len(body) != 1:
+                    return None
+                m = re.fullmatch(re.escape(ids[0]) + r"\.push\((RefType::\w+)\)", A.render_stmt(body[0]).rstrip(";"))
+                if not m:
+                    return None
+                if c:
+                    out.append(m.group(1))
+            return out
+    # form B: `[(self.f, R), ..].into_iter().<adaptors>.collect()`
+    if len(st) == 1 and A.kind(st[0]) == "Stmt::Expr":
+        chain = []
+        e = A.peel(st[0]["0"])
+        while A.kind(e) == "Expr::MethodCall":
+            chain.append(e)
+            e = A.peel(e["receiver"])
+        chain.reverse()
+        if A.kind(e) != "Expr::Array":
+            return None
+        items = []
+        for el in e["elems"]:
+            el = A.peel(el)
+            if A.kind(el) != "Expr::Tuple" or len(el["elems"]) != 2:
+                return None
+            vals = []
+            for x in el["elems"]:
+                f_ = flag(x)
+                vals.append(f_ if f_ is not None else A.render(A.peel(x)))
+            items.append(tuple(vals))
+
+        def call(cl, item):
+            pat = cl["inputs"][0]
+            while A.kind(pat) in ("Pat::Reference", "Pat::Paren", "Pat::Type"):
+                pat = pat["pat"]
+            loc = {}
+            if A.kind(pat) == "Pat::Tuple" and isinstance(item, tuple):
+                for p_, v_ in zip(pat["elems"], item):
+                    ids_ = A.pat_idents(p_)
+                    if len(ids_) == 1:
+                        loc[ids_[0]] = v_
+            elif A.kind(pat) == "Pat::Ident":
+                loc[pat["ident"]["sym"]] = item
+            else:
+                raise ValueError("closure parameter")
+
+            def ev(b):
+                b = A.peel(b)
+                k = A.kind(b)
+                if k == "Expr::Unary" and A.kind(b["op"]) == "UnOp::Deref":
+                    return ev(b["expr"])
+                if k == "Expr::Unary" and A.kind(b["op"]) == "UnOp::Not":
+                    v = ev(b["expr"])
+                    if not isinstance(v, bool):
+                        raise ValueError("!")
+                    return not v
+                if k == "Expr::Path" and A.path_str(b) in loc:
+                    return loc[A.path_str(b)]
+                if k == "Expr::MethodCall" and b["method"]["sym"] == "then_some" and len(b["args"]) == 1:
+                    c_ = ev(b["receiver"])
+                    return ("some", ev(b["args"][0])) if c_ else ("none",)
+                if k == "Expr::Field":
+                    base = ev(b["base"])
+                    idx = b["member"]["0"].get("index") if A.kind(b["member"]) == "Member::Unnamed" else None
+                    if isinstance(base, tuple) and idx is not None:
+                        return base[idx]
+                raise ValueError(A.render(b))
+
+            return ev(cl["body"])
+
+        try:
+            for mc in chain:
+                m = mc["method"]["sym"]
+                if m in ("into_iter", "iter", "copied", "cloned"):
+                    continue
+                if m == "collect":
+                    break
+                if len(mc["args"]) != 1 or A.kind(mc["args"][0]) != "Expr::Closure":
+                    return None
+                cl = mc["args"][0]
+                if m == "filter":
+                    items = [it for it in items if call(cl, it) is True]
+                elif m == "map":
+                    items = [call(cl, it) for it in items]
+                elif m == "filter_map":
+                    res = [call(cl, it) for it in items]
+                    items = [r[1] for r in res if r[0] == "some"]
+                elif m == "skip_while":
+                    k_ = 0
+                    while k_ < len(items) and call(cl, items[k_]) is True:
+                        k_ += 1
+                    items = items[k_:]
+                elif m == "take_while":
+                    k_ = 0
+                    while k_ < len(items) and call(cl, items[k_]) is True:
+                        k_ += 1
+                    items = items[:k_]
+                else:
+                    return None
+        except ValueError:
+            return None
+        if all(isinstance(x, str) and x.startswith("RefType::") for x in items):
+            return items
+    return None
+
+
+def rule_ref_types(ctx):
+    """REF-KINDS: `FullMetaInfo::ref_types()` - the list every by-reference derive (TryInto, Unwrap, TryUnwrap, Into, IntoIterator ..) iterates to emit its owned / `&` / `&mut` forms - contains `RefType::No` iff `owned`, `RefType::Ref` iff `ref_`, `RefType::Mut` iff `ref_mut`, in that order, for all eight combinations of the three flags. The body is *evaluated* on each combination (push-under-if statements, or an array of (flag, kind) pairs through `filter` / `map` / `filter_map` / `skip_while` / `take_while`), so a contiguous-run shortcut that loses `ref_mut` in `owned, ref_mut` is seen as a wrong table row."""
+    fn = A.get_fn(ctx.files, "impl/src/utils.rs", "FullMetaInfo::ref_types")
+    w = ctx.where(fn.file, fn.node)
+    import itertools
+
+    for o, r, m in itertools.product((False, True), repeat=3):
+        env = {"self.owned": o, "self.ref_": r, "self.ref_mut": m}
+        got = _eval_ref_types(fn, env)
+        want = [k for k, f_ in (("RefType::No", o), ("RefType::Ref", r), ("RefType::Mut", m)) if f_]
+        ctx.instance(f"ref_types:owned={o},ref={r},ref_mut={m}", sample={"flags": env, "kinds": got})
+        if got is None:
+            raise A.AnchorLost("impl/src/utils.rs::FullMetaInfo::ref_types", "body is neither push-under-if statements nor an array of (flag, kind) pairs through iterator adaptors")
+        if got != want:
+            ctx.report(f"ref-kinds:owned={o},ref={r},ref_mut={m}", w, f"`ref_types()` yields {got} for owned={o}, ref={r}, ref_mut={m}; the selected kinds are {want}: a requested form of the derive is not generated (or an unrequested one is)", {})
